@@ -61,6 +61,10 @@ PAIRS = {
     "valid-mixedcase": ("atmelavr", "a-star32U4"),
     "mismatch": ("atmelavr", "nano_every"),
     "unknown-board": ("atmelavr", "uno "),
+    "unknown-board-case": ("atmelavr", "UNO"),            # board ids are case-sensitive: near misses are rejected like any unknown id
+    "unknown-board-case2": ("atmelmegaavr", "Nano_Every"),
+    "unknown-board-alias": ("atmelavr", "digispark_tiny"),
+    "unknown-platform-case": ("AtmelAVR", "uno"),
     "unknown-platform": ("espressif32", "uno"),
 }
 PIO = ["present", "missing", "failing"]
